@@ -49,6 +49,7 @@ var _ backoff.BackOff
 //@ ensures [C10.terminal] !isnil(terminalErr) ==> result == nil
 //@ ensures [C10.send-terminal] sends() > old(sends()) && lastSendFailed() ==> !isnil(terminalErr) // in a session a lost exchange ends the command: no retransmission
 //@ ensures [C10.sent] isnil(terminalErr) ==> sends() == old(sends())+1
+//@ ensures [C10+C11.stray-retried] !isnil(terminalErr) ==> sends() == old(sends()) || lastSendFailed() // a reply that arrived - stray, duplicated, for another command - never ends the command: the attempt is retried
 //@ ensures [C10.final] result == nil && isnil(terminalErr) ==> !s.messageLayer.CompletionCode.IsTemporary()
 //@ ensures [C10.temporary] isnil(terminalErr) && sends() > old(sends()) && result == nil ==> s.messageLayer.CompletionCode != 0xc0 && s.messageLayer.CompletionCode != 0xc3
 //@ ensures [C04.accept] result == nil && isnil(terminalErr) && !isnil(s.integrityAlgorithm) ==> s.v2SessionLayer.Authenticated && s.v2SessionLayer.ID == s.LocalID
@@ -160,7 +161,7 @@ var _ backoff.BackOff
 //@ ensures [C15.newlinearised-sqr] result1 == nil && r.Linearisation == 8 ==> holdsFunc(result0.lineariser, "github.com/gebn/bmc/pkg/ipmi.init@linearisation.go#3")
 //@ ensures [C15.newlinearised-cube] result1 == nil && r.Linearisation == 9 ==> holdsFunc(result0.lineariser, "github.com/gebn/bmc/pkg/ipmi.init@linearisation.go#4")
 //@ ensures [C15.newlinearised-sqrt] result1 == nil && r.Linearisation == 10 ==> holdsFunc(result0.lineariser, "math.Sqrt")
-//@ ensures [C15.newlinearised-cubert] result1 == nil && r.Linearisation == 11 ==> holdsFunc(result0.lineariser, "github.com/gebn/bmc/pkg/ipmi.init@linearisation.go#5")
+//@ ensures [C15.newlinearised-cubert] result1 == nil && r.Linearisation == 11 ==> holdsFunc(result0.lineariser, "math.Cbrt")
 
 //@ func (*linearSensorReader).Read
 //@ props C15
@@ -174,7 +175,7 @@ var _ backoff.BackOff
 
 //@ func (*linearisedSensorReader).Read
 //@ props C15
-//@ requires [reader.valid] !isnil(r) && !isnil(s) && !isnil(r.linearReader) && !isnil(r.lineariser) && (holdsFunc(r.lineariser, "math.Log") || holdsFunc(r.lineariser, "math.Log10") || holdsFunc(r.lineariser, "math.Log2") || holdsFunc(r.lineariser, "math.Exp") || holdsFunc(r.lineariser, "math.Exp2") || holdsFunc(r.lineariser, "math.Sqrt") || holdsFunc(r.lineariser, "github.com/gebn/bmc/pkg/ipmi.init@linearisation.go#1") || holdsFunc(r.lineariser, "github.com/gebn/bmc/pkg/ipmi.init@linearisation.go#2") || holdsFunc(r.lineariser, "github.com/gebn/bmc/pkg/ipmi.init@linearisation.go#3") || holdsFunc(r.lineariser, "github.com/gebn/bmc/pkg/ipmi.init@linearisation.go#4") || holdsFunc(r.lineariser, "github.com/gebn/bmc/pkg/ipmi.init@linearisation.go#5")) && (holdsFunc(r.linearReader.parser, "github.com/gebn/bmc/pkg/ipmi.parseAnalogDataFormatUnsigned") || holdsFunc(r.linearReader.parser, "github.com/gebn/bmc/pkg/ipmi.parseAnalogDataFormatOnesComplement") || holdsFunc(r.linearReader.parser, "github.com/gebn/bmc/pkg/ipmi.parseAnalogDataFormatTwosComplement"))
+//@ requires [reader.valid] !isnil(r) && !isnil(s) && !isnil(r.linearReader) && !isnil(r.lineariser) && (holdsFunc(r.lineariser, "math.Log") || holdsFunc(r.lineariser, "math.Log10") || holdsFunc(r.lineariser, "math.Log2") || holdsFunc(r.lineariser, "math.Exp") || holdsFunc(r.lineariser, "math.Exp2") || holdsFunc(r.lineariser, "math.Sqrt") || holdsFunc(r.lineariser, "github.com/gebn/bmc/pkg/ipmi.init@linearisation.go#1") || holdsFunc(r.lineariser, "github.com/gebn/bmc/pkg/ipmi.init@linearisation.go#2") || holdsFunc(r.lineariser, "github.com/gebn/bmc/pkg/ipmi.init@linearisation.go#3") || holdsFunc(r.lineariser, "github.com/gebn/bmc/pkg/ipmi.init@linearisation.go#4") || holdsFunc(r.lineariser, "math.Cbrt")) && (holdsFunc(r.linearReader.parser, "github.com/gebn/bmc/pkg/ipmi.parseAnalogDataFormatUnsigned") || holdsFunc(r.linearReader.parser, "github.com/gebn/bmc/pkg/ipmi.parseAnalogDataFormatOnesComplement") || holdsFunc(r.linearReader.parser, "github.com/gebn/bmc/pkg/ipmi.parseAnalogDataFormatTwosComplement"))
 //@ ensures [C15.lread-flags] result1 == nil ==> !r.linearReader.readingCmd.Rsp.ReadingUnavailable && r.linearReader.readingCmd.Rsp.ScanningEnabled
 //@ ensures [C15.lread-value] result1 == nil ==> result0 == r.lineariser.Linearise(r.linearReader.factors.ConvertReading(r.linearReader.parser.Parse(r.linearReader.readingCmd.Rsp.Reading)))
 
